@@ -16,7 +16,7 @@ func init() {
 			"Each probe runs at sizes 0..5 (quick) / 0..12 (thorough), all positions and all sub-ranges. A reflection pass over the methods of all class and instance objects makes the run inconclusive if a method with a slice/map/sequence in its signature is not in the table. distinct_nontrivial = distinct (probe, size).",
 		Assumptions: []string{
 			"association objects reachable from a Catalog's array view are shared by design and not counted",
-			"class functions (Concatenate, Merge, Extract, And, Or, Sans, Xor) are probed for independence by C15/C16",
+			"the set operations And, Or, Sans, Xor are probed for independence by C15 (Concatenate, Merge, Extract, Fork and Split also here)",
 		},
 		Engines: []*core.Engine{
 			{Name: "probes", Count: func(tier string) int { return seq.C18Cases(tier) }, Run: seq.RunC18, Exhaustive: true},
@@ -29,5 +29,6 @@ func init() {
 				c.Distinct(core.HashStr("completeness"))
 			}},
 		},
+		Repro: map[string]func() (bool, string){"c18.fork-sequence": seq.ReproForkSequence},
 	})
 }
